@@ -319,6 +319,7 @@ package redis
 //@ ensures {C05} err == nil ==> result0 == parseF(old(argS(args, 0))) && args.index == old(args.index) + 1
 //@ ensures {C10} errors.Is(err, proto.ErrEOM) ==> !old(hasArg(args, 0))
 //@ ensures old(args.index) <= args.index && args.index <= old(args.index) + 1
+//@ ensures {C10} old(args.index) >= len(args.msgs) ==> args.index == old(args.index) && errors.Is(err, proto.ErrEOM)
 
 //@ func nextScoreArgument
 //@ requires args != nil
@@ -327,6 +328,7 @@ package redis
 //@ ensures {C05} err == nil ==> result0 == parseF(old(argS(args, 0))) && args.index == old(args.index) + 1
 //@ ensures {C10} errors.Is(err, proto.ErrEOM) ==> !old(hasArg(args, 0))
 //@ ensures old(args.index) <= args.index && args.index <= old(args.index) + 1
+//@ ensures {C10} old(args.index) >= len(args.msgs) ==> args.index == old(args.index) && errors.Is(err, proto.ErrEOM)
 
 //@ func nextRangeIndexArgument
 //@ requires args != nil
@@ -614,12 +616,26 @@ package redis
 //@   invariant arrayMsg != nil
 //@   decreases len(arrayMsg.msgs) - arrayMsg.index + (nextMsg != nil ? 1 : 0)
 
+// ZADD without option words: key, then score/member pairs. A trailing score without member (or any odd tail) is rejected before the handler.
+//@ spec func isZaddOpt(s string) bool = toUpper(s) == "NX" || toUpper(s) == "XX" || toUpper(s) == "GT" || toUpper(s) == "LT" || toUpper(s) == "CH" || toUpper(s) == "INCR"
+//@ spec func noNilArgs(a ref) bool = forall k int :: 0 <= k && k < len(a.msgs) ==> a.msgs[k] != nil
 //@ executor "ZADD"
+//@ ensures {C05,C10} H_calls == old(H_calls) || H_calls == old(H_calls) + 1
+//@ ensures {C10} err != nil && H_calls == old(H_calls) || H_calls == old(H_calls) + 1
+//@ ensures {C10} old(strArg(args, 0) && strArg(args, 1) && !isZaddOpt(argS(args, 1)) && noNilArgs(args)) && H_calls == old(H_calls) + 1 ==> len(args.msgs) == old(args.index) + 1 + 2 * len(H_ZAdd_members[old(H_calls)]) && len(H_ZAdd_members[old(H_calls)]) >= 1
+//@ ensures {C05} H_calls == old(H_calls) + 1 ==> H_m[old(H_calls)] == "ZAdd" && H_conn[old(H_calls)] == conn && H_ZAdd_key[old(H_calls)] == old(argS(args, 0)) && result0 == H_res[old(H_calls)] && err == H_err[old(H_calls)]
 //@ loop 0
 //@   invariant {C03} args.index <= len(args.msgs)
+//@   invariant {C10} H_calls == old(H_calls) && key == old(argS(args, 0))
+//@   invariant {C10} old(strArg(args, 0) && strArg(args, 1) && !isZaddOpt(argS(args, 1))) ==> args.index == old(args.index) + 2 && param == old(argS(args, 1)) && err == nil
 //@   decreases len(args.msgs) - args.index + (err == nil ? 1 : 0)
 //@ loop 1
 //@   invariant {C03} args.index <= len(args.msgs) && fresh(members)
+//@   invariant {C10} H_calls == old(H_calls) && key == old(argS(args, 0))
+//@   invariant {C10} old(strArg(args, 0) && strArg(args, 1) && !isZaddOpt(argS(args, 1)) && noNilArgs(args)) ==> args.index == old(args.index) + 3 + 2 * len(members)
+//@   invariant {C10} old(noNilArgs(args)) ==> noNilArgs(args)
+//@   invariant {C10} err == nil
+//@   invariant {C10} !isNaN(score) && forall k int :: 0 <= k && k < len(members) ==> members[k] != nil && !isNaN(members[k].Score)
 //@   decreases len(args.msgs) - args.index + (err == nil ? 1 : 0)
 
 // ---------------------------------------------------------------- tls_config.go
